@@ -9,7 +9,7 @@ META = {
     "engine": "qsym-translator",
     "technique": "exact differential against a branch-enumerating reference evaluated inside Coq (one exact circuit per outcome history over Q(zeta_8), kernel-checked obligation that the branch weights sum to one) for the analytic methods deferred and tree-traversal; statistical consistency of one-shot sampling",
     "design_ref": "DESIGN.md §3 C21, §5 item 7",
-    "text": "Random dynamic circuits (up to 3 mid-circuit measurements quick / 5 thorough, reset, postselection, classically controlled gates on measurement-value arithmetic m, ~m, m&m', m|m', m+m'==1, 2m+m'>=2; statistics of terminal observables and of measurement values) are executed with mcm_method='deferred' and 'tree-traversal' in analytic mode. The reference enumerates every outcome history, builds the branch circuit independently from the circuit SPECIFICATION (projectors, reset flips, predicates evaluated by the harness, not by PennyLane) and Coq simulates each branch exactly (branch_state_is_linear_evolution); Coq also proves per circuit that the branch weights total one. Postselection conditions the whole history. Every returned expectation value / probability vector must equal the branch average (1e-9). One-shot sampling is compared within 6 standard errors.",
+    "text": "Random dynamic circuits (up to 3 mid-circuit measurements quick / 5 thorough, reset, postselection, classically controlled gates on measurement-value arithmetic m, ~m, m&m', m|m', m+m'==1, 2m+m'>=2, and reflected arithmetic with the constant on the left: c-m, c+m, c*m, c-(m+m') in predicates and in expval statistics; statistics of terminal observables and of measurement values) are executed with mcm_method='deferred' and 'tree-traversal' in analytic mode. The reference enumerates every outcome history, builds the branch circuit independently from the circuit SPECIFICATION (projectors, reset flips, predicates evaluated by the harness, not by PennyLane) and Coq simulates each branch exactly (branch_state_is_linear_evolution); Coq also proves per circuit that the branch weights total one. Postselection conditions the whole history. Every returned expectation value / probability vector must equal the branch average (1e-9). One-shot sampling is compared within 6 standard errors.",
     "note": "Trusted: Coq kernel + stdlib real axioms; translator for gate matrices; the reference post-processing (branch averages) is numpy arithmetic on the exact branch states; zero-probability postselections are excluded (undefined); the transforms themselves (defer_measurements, tree traversal) are not modelled in Gallina: this property is decided by exact differential. Known finding kept: tree-traversal ignores a later postselection when reporting statistics of an earlier measurement.",
     "assumptions": ["postselection conditions the statistics of all measurements of the history (what deferred and one-shot do)"],
     "trusted": ["harness/exactsim.py", "branch construction in harness/impl/c21_impl.py"],
@@ -20,6 +20,23 @@ From PLV Require Import Alg.Poly Lin.Vec Lin.PVec.
 Import ListNotations.
 Open Scope Q_scope.
 """
+
+
+def expr_value(e, b):
+    """Value of a measurement-value arithmetic expression ([op, lhs, rhs]; leaves "m<i>" or an integer constant, which may
+    stand on the LEFT: c - m, c + m, c * m, c - (m + m')) on the integer outcomes b of one history: plain integer arithmetic."""
+    if isinstance(e, int):
+        return e
+    if isinstance(e, str):
+        return b[int(e[1:])]
+    x, y = expr_value(e[1], b), expr_value(e[2], b)
+    if e[0] == "+":
+        return x + y
+    if e[0] == "-":
+        return x - y
+    if e[0] == "*":
+        return x * y
+    return int({"==": x == y, ">=": x >= y, "<": x < y}[e[0]])
 
 
 def reference(spec, branches, states):
@@ -39,6 +56,8 @@ def reference(spec, branches, states):
             out.append(sum(exactsim.probs(st, n, m["wires"]) for _, st in kept) / W)
         elif m["k"] == "expval_mcm":
             out.append(sum(float(np.vdot(st, st).real) * b["b"][m["i"]] for b, st in kept) / W)
+        elif m["k"] == "expval_expr":
+            out.append(sum(float(np.vdot(st, st).real) * expr_value(m["expr"], b["b"]) for b, st in kept) / W)
         else:
             p = np.zeros(2 ** len(m["idx"]))
             for b, st in kept:
@@ -69,7 +88,7 @@ def run(ctx):
     failed = ctx.coq_obligations("weights", HEADER, lem, chunk=6)
     for name, detail in failed:
         ctx.broken_obligation("coq", name, detail)
-    stats = {"compared": 0, "excluded_zero_prob": 0, "one_shot": 0, "with_postselect": 0, "with_reset": 0, "with_cond": 0}
+    stats = {"compared": 0, "excluded_zero_prob": 0, "one_shot": 0, "with_postselect": 0, "with_reset": 0, "with_cond": 0, "with_reflected_arithmetic": 0}
     for ci, c in enumerate(cases):
         spec = c["spec"]
         ref, W = reference(spec, c["branches"], per[ci])
@@ -80,6 +99,7 @@ def run(ctx):
         stats["with_postselect"] += any(s["t"] == "mcm" and s["postselect"] is not None for s in spec["steps"])
         stats["with_reset"] += any(s["t"] == "mcm" and s["reset"] for s in spec["steps"])
         stats["with_cond"] += any(s["t"] == "cond" for s in spec["steps"])
+        stats["with_reflected_arithmetic"] += any(s.get("pred") == "expr" for s in spec["steps"]) or any(m["k"] == "expval_expr" for m in spec["meas"])
         for method in ("deferred", "tree-traversal"):
             r = c["results"].get(method)
             if isinstance(r, str):
@@ -90,7 +110,7 @@ def run(ctx):
                 if not err <= 1e-9:
                     # known finding: tree-traversal + statistics of an earlier MCM + later postselection
                     later_ps = False
-                    if method == "tree-traversal" and m["k"] in ("expval_mcm", "probs_mcm"):
+                    if method == "tree-traversal" and m["k"] in ("expval_mcm", "probs_mcm", "expval_expr"):
                         idxs = [m["i"]] if m["k"] == "expval_mcm" else m["idx"]
                         mpos = [j for j, s in enumerate([s for s in spec["steps"] if s["t"] == "mcm"])]
                         mcms = [s for s in spec["steps"] if s["t"] == "mcm"]
@@ -113,7 +133,11 @@ def run(ctx):
                 if np.any(np.isnan(g)):
                     continue
                 neff = max(shots * W, 1.0)
-                tol = 6.5 / math.sqrt(neff) + 1e-9
+                scale = 1.0
+                if m["k"] == "expval_expr":     # a statistic with values in [lo, hi] has standard deviation <= (hi - lo) / 2
+                    vals = [expr_value(m["expr"], hb) for hb in itertools.product([0, 1], repeat=spec["nm"])]
+                    scale = max(1.0, (max(vals) - min(vals)) / 2)
+                tol = 6.5 * scale / math.sqrt(neff) + 1e-9
                 if float(np.abs(g - e).max()) > tol:
                     ctx.violation("one-shot:" + json.dumps([spec, m])[:300], {"spec": spec, "measurement": m, "sampled": got, "exact": e.tolist(), "shots": shots, "tolerance": tol},
                                   what="one-shot sampling is statistically inconsistent with the exact branch-averaged result")
